@@ -16,7 +16,7 @@
 From Avfs Require Import Base PathModel PathSpec PathProofs PathCleanProofs PathIterProofs.
 From Coq Require Import Permutation.
 From Avfs Require Import MemFS MemFile World Posix Inv WalkBridge WalkSym WalkBudget WalkReadlink WalkRel StepEq WalkInv StepInv
-  HeapEq HeapEqSnap StepRename StepRenameDir StepHist.
+  HeapEq HeapEqSnap StepRename StepRenameDir StepHist StepCwd.
 
 Theorem C01_step_stat : forall (s : fsys) (sv : sview) (cs : list str),
   step_hyps s sv -> path_ok s sv SlStat cs ->
@@ -276,3 +276,45 @@ Theorem C01_history_inv_x : forall (vi : nat) (cs : list call) (w : world) (sw :
   /\ absw (fst (impl_run w cs)) vi (fst (spec_run sw cs))
   /\ Inv (fst (impl_run w cs)) /\ links_ok (f_heap (w_fs (fst (impl_run w cs)))).
 Proof. exact history_inv_x. Qed.
+
+(* ---- the working directory: Chdir, Getwd, relative paths ----------------------------------------------------------------- *)
+(* MemFS keeps the working directory as a path STRING, the kernel as a NODE.  [absc w vi sw d]: same file system; view [vi]
+   of the world is the specification's view with working-directory string [d]; and [d] is a directory walk (link-free,
+   searchable) from the root to the specification's working-directory node ([cwd_rel]). *)
+Theorem C01_getwd : forall (h : heap) (u : user) (root : nat),
+  Inv_heap h -> node_is_dir h root = true -> kperm h root 1 u = true ->
+  forall (bs : list str) (cwdn : nat), Forall good_comp bs -> dwalk h u root bs = Some cwdn ->
+  kperm h cwdn 1 u = true /\ is_ancestor (S (length h)) h root root cwdn = true
+  /\ path_of (S (length h)) h root cwdn [] = abs_path bs.
+Proof. exact getwd_agree. Qed.
+
+Theorem C01_chdir_rel : forall (s : fsys) (sv : sview) (p : str),
+  step_hyps s sv -> resolvedx s sv SlEval p ->
+  match chdir s (sv_view sv) p, k_chdir s sv p with
+  | inl r, inl e => proj_res Linux r = SErr e
+  | inr d, inr c => exists bs, Forall good_comp bs /\ d = abs_path bs
+                               /\ dwalk (f_heap s) (v_user (sv_view sv)) (v_root (sv_view sv)) bs = Some c
+  | _, _ => False
+  end.
+Proof. exact chdir_rel. Qed.
+
+(* one step: the absolute-path calls of [covered_x] and the resolved-path calls of [covered_res] (relative paths enter
+   through C04_resolve_rel), provided the working-directory string still denotes the working-directory node afterwards
+   (it does not when that directory is removed or an ancestor renamed: listed finding C01-CWD-STRING); Chdir; Getwd *)
+Theorem C01_step_cwd : forall (w : world) (vi : nat) (sw : sworld) (d : str) (c : call),
+  absc w vi sw d -> covered_c vi sw d c ->
+  obs_sim (snd (impl_step_proj w c)) (snd (spec_step true sw c))
+  /\ exists d', absc (fst (impl_step_proj w c)) vi (fst (spec_step true sw c)) d'.
+Proof. exact step_world_c. Qed.
+
+Theorem C01_history_cwd : forall (vi : nat) (cs : list call) (w : world) (sw : sworld),
+  absc w vi sw (cwd_of w vi) -> covered_c_run vi w sw cs ->
+  Forall2 obs_sim (snd (impl_run w cs)) (snd (spec_run sw cs))
+  /\ absc (fst (impl_run w cs)) vi (fst (spec_run sw cs)) (cwd_of (fst (impl_run w cs)) vi).
+Proof. exact history_c. Qed.
+
+Example C01_history_cwd_example :
+  Forall2 obs_sim (snd (impl_run StepExamples.w_tree StepCwdExamples.hc)) (snd (spec_run StepExamples.sw_tree StepCwdExamples.hc))
+  /\ cwd_of (fst (impl_run StepExamples.w_tree StepCwdExamples.hc)) 0 = abs_path [WalkSymExamples.s_d]
+  /\ sv_cwd (sw_sv (fst (spec_run StepExamples.sw_tree StepCwdExamples.hc))) = 1.
+Proof. exact StepCwdExamples.hc_agree. Qed.
